@@ -131,6 +131,11 @@ func parseMain(args []string) {
 }
 
 func emitScan(emit func(J), c J, variant string, text string, crlf bool) {
+	emitScanCol(emit, c, variant, text, crlf, -1)
+}
+
+// col: for a truncation, the column of the cut inside its line (-1 otherwise)
+func emitScanCol(emit func(J), c J, variant string, text string, crlf bool, col int) {
 	if crlf {
 		text = strings.ReplaceAll(text, "\n", "\r\n")
 	}
@@ -142,7 +147,7 @@ func emitScan(emit func(J), c J, variant string, text string, crlf bool) {
 	if decl == nil {
 		decl = []int{}
 	}
-	emit(J{"ev": "scan", "case": c["id"], "seed": c["seed"], "muts": c["muts"], "byteop": c["byteop"], "variant": variant, "crlf": crlf,
+	emit(J{"ev": "scan", "case": c["id"], "seed": c["seed"], "muts": c["muts"], "byteop": c["byteop"], "variant": variant, "crlf": crlf, "col": col,
 		"outcome": o.Outcome, "detail": o.Detail, "lens": lens, "reported": decl, "declared": declaredLengths(text)})
 }
 
@@ -167,7 +172,7 @@ func runMutCase(c J, emit func(J)) {
 		lo := start(i)
 		hi := lo + len(lines[i-1]) + 1
 		for cut := lo; cut < hi && cut < len(text); cut++ {
-			emitScan(emit, c, fmt.Sprintf("trunc@%d", cut), text[:cut], false)
+			emitScanCol(emit, c, fmt.Sprintf("trunc@%d", cut), text[:cut], false, cut-lo)
 		}
 	case "flip":
 		i := asInt(bop["i"])
